@@ -375,8 +375,26 @@ func (fr *Frame) checkBackEdges(b *ssa.BasicBlock) {
 			fr.oblige(fmt.Sprintf("loop%d", li.ordinal), "preserved/auto-no-error-swallowed-so-far", []string{"C11"}, Not(es), pos)
 		}
 		if li.spec != nil {
+			// a latch block reached along several edges: one obligation per edge for tagged clauses
+			var fpreds []*ssa.BasicBlock
+			for _, pb := range b.Preds {
+				if _, ok := fr.reach[pb]; ok && !b.Dominates(pb) {
+					fpreds = append(fpreds, pb)
+				}
+			}
 			for i, cl := range li.spec.Invariants {
-				fr.oblige(fmt.Sprintf("loop%d", li.ordinal), "preserved/"+clauseLabel(cl, i), cl.Props, fr.evalBool(cl.Expr, env), pos)
+				goal := fr.evalBool(cl.Expr, env)
+				if len(fpreds) >= 2 && len(fpreds) <= 4 && len(cl.Props) > 0 && fr.loops[b] == nil {
+					base := fr.cur
+					for k, pb := range fpreds {
+						fr.cur = And(base, fr.edgeCond(pb, b))
+						fr.oblige(fmt.Sprintf("loop%d", li.ordinal), fmt.Sprintf("preserved/%s/via%d", clauseLabel(cl, i), k+1), cl.Props, goal, pos)
+					}
+					fr.cur = base
+					ex.addFact(Implies(fr.cur, goal))
+					continue
+				}
+				fr.oblige(fmt.Sprintf("loop%d", li.ordinal), "preserved/"+clauseLabel(cl, i), cl.Props, goal, pos)
 			}
 		}
 		if li.spec == nil || len(li.spec.Decreases) == 0 {
